@@ -664,9 +664,10 @@ class Parser:
         self.err("expected ; or }")
 
 
-def parse_fn(src, a, b, what):
-    """src[a:b] starts at `fn`.  -> (name, generics, params, ret, Block)"""
-    p = Parser(src, a, b, what)
+def parse_fn(src, a, b, what, parser_cls=None):
+    """src[a:b] starts at `fn`.  -> (name, generics, params, ret, Block)
+    (parser_cls: a subclass of Parser that understands more syntax, see extract_enc.py)"""
+    p = (parser_cls or Parser)(src, a, b, what)
     p.eat("fn")
     name = p.ident()
     generics = []
